@@ -595,6 +595,39 @@ fn check_built(cfg: &Config, s: &mut Session, rng: &mut Rng, sc: &Scenario) {
     // ---- correspondence: the model rebuilds the store from the observed partition -----------
     let (order, canon) = canonical_regions(sc);
     let n_canon = order.len();
+    if !sc.direct {
+        // add_deltas de-duplication: equal normalised sets <=> equal temporary ids (oracle, independent
+        // of the model), and the ids themselves against Ivs.addAllDedup
+        let norm = |set: &Vec<(usize, i32)>| -> Vec<(usize, i32)> {
+            let mut v: Vec<(usize, i32)> = set.iter().map(|(r, d)| (canon[r], *d)).collect();
+            v.sort();
+            if v.iter().all(|(_, d)| *d == 0) {
+                v.clear();
+            }
+            v
+        };
+        let mut by_norm: HashMap<Vec<(usize, i32)>, u32> = HashMap::new();
+        let mut by_id: HashMap<u32, Vec<(usize, i32)>> = HashMap::new();
+        let mut ok = true;
+        for (k, set) in sc.sets.iter().enumerate() {
+            let nset = norm(set);
+            let id = built.ids[k];
+            ok &= *by_norm.entry(nset.clone()).or_insert(id) == id;
+            ok &= *by_id.entry(id).or_insert(nset.clone()) == nset;
+        }
+        s.oracle("add_deltas-dedup(equal sets <=> equal ids)", ok, || desc.clone(), || format!("{:?}", built.ids.iter().take(40).collect::<Vec<_>>()));
+        s.count(if by_id.len() < sc.sets.len() { "dedup:has-duplicates" } else { "dedup:all-distinct" });
+        if sc.sets.len() <= 3000 {
+            let mut r = format!("ivs.addall {}", sc.sets.len());
+            for set in &sc.sets {
+                r.push_str(&format!(" {}", set.len()));
+                for (reg, d) in set {
+                    r.push_str(&format!(" {} {}", canon[reg], d));
+                }
+            }
+            s.case("add_deltas(ids)", r, join(&built.ids));
+        }
+    }
     let mut req;
     if sc.direct {
         req = format!("ivs.direct {} {}", n_canon, sc.sets.len());
